@@ -139,19 +139,20 @@ Lemma read_block_ok c n pos c' pos' r :
   c_fs c' = c_fs c /\
   match r with
   | Ok (Some blk) => lenN blk = BS P /\ pos' = pos + BS P /\ pos + BS P <= lenN (fcontent (c_fs c) n)
-  | Ok None => pos' = N.max pos (lenN (fcontent (c_fs c) n))
+  (* R2: an injected UnexpectedEof is absorbed as a short read with the position unchanged *)
+  | Ok None => pos' = pos \/ pos' = N.max pos (lenN (fcontent (c_fs c) n))
   | Err _ => pos' = pos
   end.
 Proof.
   unfold read_block. pose proof (fault_point_fs c SRead) as Hf.
   destruct (fault_point c SRead) as [c1 [e|]]; cbn [fst] in Hf.
-  - intros H; inversion H; subst. split; [exact Hf|reflexivity].
+  - intros H; inversion H; subst. split; [exact Hf|destruct e; first [reflexivity|left; reflexivity]].
   - rewrite file_content_fcontent, Hf.
     destruct (N.leb_spec (pos + BS P) (lenN (fcontent (c_fs c) n))) as [Hle|Hgt];
       intros H; inversion H; subst; (split; [exact Hf|]).
     + split; [|split; [reflexivity|exact Hle]].
       rewrite lenN_sliceN; lia.
-    + reflexivity.
+    + right; reflexivity.
 Qed.
 
 Lemma next_file_loop_ok : forall cands c rd rd' r,
